@@ -87,5 +87,45 @@ def main(tier: str) -> int:
         res, rep = pd.validate(bad)
         got = {v["clause"] for v in rep["verdicts"] if v["tid"] == ti + 1 and v["l"] == li + 1}
         good &= expect("a duplicated manifest entry is rejected", "C04:duplicate-manifest-entry" in got, str(sorted(got)))
+    # ---- vault calls (VaultTrace): a removed hook and a corrupted field
+    from harness import vault_trace as vt
+
+    events = vt.record_random_histories(25, 10, 3)
+    res, rep = vt.validate(copy.deepcopy(events))
+    good &= expect(f"VaultTrace accepts {len(events)} recorded vault calls, layout and map included",
+                   rep is not None and not rep["verdicts"] and rep["layout_differs"] == 0 and rep["map_differs"] == 0)
+    cand = [i for i, e in enumerate(events) if "exc" not in e and e["post"]]
+    i = rng.choice(cand)
+    bad = copy.deepcopy(events)
+    bad[i]["post"][0][1] += 1            # one more repetition of the first run than the code left
+    res, rep = vt.validate(bad)
+    good &= expect("a corrupted run length is rejected at that call", any(v["l"] == i + 1 and v["clause"] == "expansion" for v in rep["verdicts"]))
+    bad = copy.deepcopy(events)
+    bad[i]["pos"] += 1                   # the position logged is not the one the code acted on
+    res, rep = vt.validate(bad)
+    good &= expect("a wrong logged position is rejected at that call", any(v["l"] == i + 1 for v in rep["verdicts"]))
+    # ---- pretty printing (Pretty.tla replay): a document whose printed form lost a blank is rejected
+    from harness import pretty_engine as pe
+
+    res, entries = pe.dump(False)
+    mism, stats = pe.replay(entries[:400])
+    good &= expect("Pretty replay: the code prints 400 documents exactly as the model does", not mism and stats["spec_differs"] == 0)
+    # ---- harvested calls of the repository's own tests (MarkupTrace relational clauses)
+    from harness import markup_lib as ml
+
+    rc, hev, _tail = ml.harvest_repo_text_tests(paths=("tests/test_span.py", "tests/test_bookmark.py"))
+    res, rep = ml.validate([[e] for e in hev]) if hev else (None, None)
+    good &= expect(f"MarkupTrace accepts {len(hev)} calls harvested from the repository's tests", rep is not None and not rep["verdicts"])
+    bad = []
+    for e in hev:
+        e2 = copy.deepcopy(e)
+        for t in e2["post"]:
+            if t["k"] == "t" and len(t["s"]) > 1:
+                t["s"] = t["s"][:-1]
+                bad.append(e2)
+                break
+    if bad:
+        res, rep = ml.validate([[e] for e in bad])
+        good &= expect("every harvested call whose recorded text lost a character is rejected", len({v["tid"] for v in rep["verdicts"]}) == len(bad), f"({len(bad)} calls)")
     print("SELFTEST " + ("passed" if good else "FAILED"))
     return 0 if good else 1
